@@ -32,6 +32,7 @@ type state struct {
 	ij         data.Map           // injected data available to all templates.
 	msgs       soymsg.Bundle      // replacement text for {msg} tags
 	depth      int                // how many {call}s deep is this template being rendered?
+	level      int                // how many nodes deep is the walk, counted through all calling templates?
 	calls      *[]*state          // the called templates being rendered, outermost first (shared by all of them)
 }
 
@@ -40,6 +41,11 @@ type state struct {
 // process: a recursion that the data drives too deep (or that never ends) is
 // refused with an error instead.
 const maxCallDepth = 2000
+
+// maxWalkDepth bounds the nesting of the walk itself, counted through all the
+// templates that are calling each other: a template whose commands are nested
+// thousands of levels deep uses that much more stack at every level of {call}.
+const maxWalkDepth = 100000
 
 // at marks the state to be on node n, for error reporting.
 func (s *state) at(node ast.Node) {
@@ -116,6 +122,16 @@ func (s *state) errRecover(errp *error) {
 // walk recursively goes through each node and executes the indicated logic and
 // writes the output
 func (s *state) walk(node ast.Node) {
+	// (a failure abandons the render and its states: the count is not restored then.)
+	if s.level++; s.level > maxWalkDepth {
+		s.at(node)
+		s.errorf("commands and template calls are nested more than %d levels deep", maxWalkDepth)
+	}
+	s.walkNode(node)
+	s.level--
+}
+
+func (s *state) walkNode(node ast.Node) {
 	s.val = data.Undefined{}
 	s.at(node)
 	switch node := node.(type) {
@@ -584,6 +600,7 @@ func (s *state) evalCall(node *ast.CallNode) {
 	callData.enter()
 	state := &state{
 		depth:      s.depth + 1,
+		level:      s.level,
 		tmpl:       calledTmpl,
 		registry:   s.registry,
 		namespace:  calledTmpl.Namespace.Name,
